@@ -22,6 +22,42 @@ def check_output(out):
     return len(pkts), len(convs), sum(len(v) for v in udp.values())
 
 
+def carrier_clause(mx, out):
+    """"a record of n bytes carried by k input packets is re-split into at most k segments whose concatenation is the
+    record", on the exported file: for every fully exported TLS connection (no -a) and every application record with
+    plaintext, the exported data segments never span two records and at most k of them lie inside the record, k = the
+    number of distinct captured segments that carry bytes of the record (ground truth from the independent sender)."""
+    _, convs, _ = e2e.decode(out)
+    for t in mx.tls:
+        conn, sc = t["conn"], t["script"]
+        c = e2e.find_conv(convs, conn)
+        if c is None:
+            continue
+        for d, key in ((0, "c2s"), (1, "s2c")):
+            if bytes(c[key]) != bytes(t["truth"][d]):
+                continue                                   # not (fully) exported: other clauses / other properties
+            segs_in = sorted({(conn.offset(k), len(pk[4])) for k, pk in enumerate(conn.pkts) if pk[2] == d and pk[4]})
+            bounds, pos = set(), 0
+            for dd, _us, pl in c["segments"]:
+                if dd == key:
+                    bounds.add(pos)
+                    pos += len(pl)
+            outs = sorted(bounds) + [pos]
+            coff = poff = 0
+            for ent in sc.rec_log[d]:
+                raw = ent[1]
+                if ent[0] == "app" and len(ent[2]):
+                    k = sum(1 for a, n in segs_in if a < coff + len(raw) and a + n > coff)
+                    if poff not in bounds:
+                        return f"segment-spans-records: a data segment of direction {key} runs across the start of a record at stream offset {poff}"
+                    m = sum(1 for b in outs[:-1] if poff <= b < poff + len(ent[2]))
+                    if m > k:
+                        return f"too-many-segments: a record carried by {k} captured segments is exported in {m} segments ({key}, offset {poff})"
+                    poff += len(ent[2])
+                coff += len(raw)
+    return None
+
+
 def one(job):
     import random
     import logging
@@ -58,6 +94,10 @@ def one(job):
         n, nc, nu = check_output(r.out)
     except wire.FrameError as e:
         return f"bad-frame:{e}", mx.describe(), blob, 0
+    if damage in ("none", "noise") and "-a" not in args:
+        prob = carrier_clause(mx, r.out)
+        if prob:
+            return prob, mx.describe(), blob, n
     return None, mx.describe(), blob, n
 
 
